@@ -556,14 +556,14 @@ func decodeIPv6HopByHop(data []byte, p gopacket.PacketBuilder) error {
 }
 
 // SetJumboLength adds the IPv6HopByHopOptionJumbogram with the given length
-func (o *IPv6HopByHopOption) SetJumboLength(len uint32) {
+func (o *IPv6HopByHopOption) SetJumboLength(length uint32) {
 	o.OptionType = IPv6HopByHopOptionJumbogram
 	o.OptionLength = 4
 	o.ActualLength = 6
-	if o.OptionData == nil {
+	if len(o.OptionData) != 4 {
 		o.OptionData = make([]byte, 4)
 	}
-	binary.BigEndian.PutUint32(o.OptionData, len)
+	binary.BigEndian.PutUint32(o.OptionData, length)
 	o.OptionAlignment = [2]uint8{4, 2}
 }
 
